@@ -16,10 +16,11 @@ type ModSet struct {
 	Regions []modRegion         // slice windows that may be written
 	Boxes   []string            // P-heap object ids
 	Ghost   map[string]bool
+	Streams []string // reader ids whose position may advance
 	All     bool
 }
 
-type modRegion struct{ Reg, Lo, Hi string }
+type modRegion struct{ Reg, Lo, Hi, Elem string } // Elem: heap family "E_<elemkey>" the window belongs to
 
 func (vc *VC) escapeAnalysis() {
 	var visit func(fn *ssa.Function)
@@ -334,6 +335,30 @@ func (vc *VC) binop(st *State, in *ssa.BinOp) Val {
 			if n.Sign() >= 0 && m.BitLen() > 0 && new(big.Int).And(m, n).Sign() == 0 { // mask 2^k-1
 				if lo, _, _ := intRange(t); lo != nil && lo.Sign() == 0 {
 					return IntV(vc.name("and", "Int", Mod(x.S, num(m))), rt)
+				}
+			}
+		}
+		// constant mask with few bits on an unsigned operand: sum of the selected bits
+		for _, pr := range [][2]Val{{x, y}, {y, x}} {
+			if n, ok := isNum(pr[1].S); ok && n.Sign() > 0 && n.BitLen() <= 64 {
+				if lo, _, _ := intRange(t); lo != nil && lo.Sign() == 0 {
+					cnt := 0
+					for b := 0; b < n.BitLen(); b++ {
+						if n.Bit(b) == 1 {
+							cnt++
+						}
+					}
+					if cnt <= 8 {
+						v := vc.name("andx", "Int", pr[0].S)
+						sum := "0"
+						for b := 0; b < n.BitLen(); b++ {
+							if n.Bit(b) == 1 {
+								p2 := num(pow2(uint(b)))
+								sum = Add(sum, Mul(Mod(Div(v, p2), "2"), p2))
+							}
+						}
+						return IntV(vc.name("and", "Int", sum), rt)
+					}
 				}
 			}
 		}
